@@ -52,10 +52,16 @@ def run_hist(opts, ops, seed=0, threaded=False, kind="plain"):
                     running["n"] -= 1
 
             t = Task("verif-task", target, **opts)
-            made, counted = [], [0]       # every asyncio task created on this loop; those named after the task are its instances
+            made, counted, runaway = [], [0], []       # every asyncio task created on this loop; those named after the task are its instances
 
             def factory(lp, coro, **kw):
+                if len(made) > 3000 and not runaway:        # a history of a dozen calls creates a few dozen tasks: this is a runaway - stop it;
+                    runaway.append(running["n"])             # the number of target invocations in progress at that point is what the trace reports
+                    for old in made:
+                        old.cancel()
                 tk = asyncio.Task(coro, loop=lp, **kw)
+                if runaway:
+                    tk.cancel()
                 made.append(tk)
                 return tk
 
@@ -95,7 +101,7 @@ def run_hist(opts, ops, seed=0, threaded=False, kind="plain"):
                 if threaded:
                     new = max(new, fresh())          # the report was processed by the loop only now
                 live = [x for x in asyncio.all_tasks() if x.get_name() == "verif-task" and not x.done()]
-                trace.append({"op": opname, "live": len(live), "new": new, "running": running["n"], "noobs": 0})
+                trace.append({"op": opname, "live": len(live), "new": new, "running": max(running["n"], runaway[0] if runaway else 0), "noobs": 0})
             reg.stop()
             await asyncio.sleep(0)
 
